@@ -69,6 +69,25 @@ func c20StackString(legacy bool, seed byte) (got, want string) {
 	return string(c20Sink), want
 }
 
+// c20MakeSole builds a fresh heap object, converts it, stores only the converted result and returns a copy of
+// the content; when it returns, the original slice/string header is dead.
+//
+//go:noinline
+func c20MakeSole(cv conv, dir int64, l int, seed byte, keepS *string, keepB *[]byte) string {
+	b := make([]byte, l)
+	for i := range b {
+		b[i] = seed + byte(i)*7
+	}
+	want := string(b)
+	if dir == 0 {
+		*keepS = cv.b2s(b)
+	} else {
+		s := string(b) // a second heap object, referenced by s only
+		*keepB = cv.s2b(s)
+	}
+	return want
+}
+
 func monC20(c *drv.Ctx) {
 	c.Stage("stack-strings", 64, true, func(cs *drv.Case) {
 		legacy := cs.Idx%2 == 1
@@ -84,6 +103,44 @@ func monC20(c *drv.Ctx) {
 		}
 		cs.Count(true, "stack", cs.Idx)
 		cs.C.Obs("stack-string cases", 1)
+	})
+
+	// the result of a conversion is the ONLY reference that is kept: the collector must see it as one (a result
+	// forged from an integer address would leave the memory collectable; it is then reused - or, in the gcstress
+	// flavour, overwritten by the collector itself - under the holder)
+	soleLens := []int{1, 8, 24, 100, 512, 4096, 40000}
+	c.Stage("sole-reference", int64(len(soleLens)*len(convs)*2), true, func(cs *drv.Case) {
+		i := cs.Idx
+		cv := convs[i%int64(len(convs))]
+		dir := (i / int64(len(convs))) % 2
+		l := soleLens[i/int64(2*len(convs))]
+		cs.Desc = M{"variant": cv.name, "len": l, "direction": []string{"BinaryToString", "StringToBinary"}[dir]}
+		var keepS string
+		var keepB []byte
+		want := c20MakeSole(cv, dir, l, byte(i), &keepS, &keepB)
+		// collect, then refill the heap with objects of the same size
+		var junk [][]byte
+		for round := 0; round < 3; round++ {
+			runtime.GC()
+			for k := 0; k < 200; k++ {
+				j := make([]byte, l)
+				for x := range j {
+					j[x] = 0xCD
+				}
+				junk = append(junk, j)
+			}
+		}
+		got := keepS
+		if dir == 1 {
+			got = string(keepB)
+		}
+		if got != want {
+			cs.Fail("conversion-result-not-a-reference", M{"variant": cv.name, "direction": cs.Desc["direction"]}, M{"len": l, "first_diff": firstDiff([]byte(got), []byte(want)),
+				"message": "the only reference to the bytes was the conversion result, and their content changed after garbage collections: the collector does not see the result as a reference"})
+		}
+		runtime.KeepAlive(junk)
+		cs.Count(true, "sole", i)
+		cs.C.Obs("sole-reference cases", 1)
 	})
 
 	lens := c20Lens(c.Thorough())
